@@ -82,14 +82,14 @@ Inductive tr :=
 | TDistinct (t : tr) (exh : bool) (seen : list text)
 | TPrefetch (t : tr) (q : list cand) (exh : bool)
 | TCharset (t : tr) (exh : bool)
-| TUniquified (t : tr) (exh : bool).
+| TUniquified (t : tr) (exh : bool) (yielded : list text).  (* yielded_: texts already handed to the next filter *)
 
 Definition exhausted (t : tr) : bool :=
   match t with
   | TUnique _ e | TEcho _ e => e
   | TFifo l => match l with [] => true | _ => false end
   | TUnion ts => match ts with [] => true | _ => false end
-  | TMerged _ _ e | TCache _ e | TDistinct _ e _ | TPrefetch _ _ e | TCharset _ e | TUniquified _ e => e
+  | TMerged _ _ e | TCache _ e | TDistinct _ e _ | TPrefetch _ _ e | TCharset _ e | TUniquified _ e _ => e
   end.
 
 Fixpoint peek (t : tr) : option cand :=
@@ -104,7 +104,7 @@ Fixpoint peek (t : tr) : option cand :=
          | [] => None                            (* index past the vector: undefined in C++ *)
          | x :: r => match n with 0 => peek x | S n' => pk r n' end
          end) ts k
-  | TCache t0 e | TDistinct t0 e _ | TUniquified t0 e => if e then None else peek t0
+  | TCache t0 e | TDistinct t0 e _ | TUniquified t0 e _ => if e then None else peek t0
   | TPrefetch t0 q e => if e then None else match q with c :: _ => Some c | [] => peek t0 end
   | TCharset t0 _ => peek t0                     (* CharsetFilterTranslation::Peek does not test exhausted() *)
   end.
@@ -119,7 +119,7 @@ Fixpoint rem (t : tr) : nat :=
   | TMerged ts _ e =>
       if e then 0 else
       S ((fix sum (l : list tr) : nat := match l with [] => 0 | x :: r => S (rem x + sum r) end) ts)
-  | TCache t0 e | TDistinct t0 e _ | TCharset t0 e | TUniquified t0 e => if e then 0 else S (rem t0)
+  | TCache t0 e | TDistinct t0 e _ | TCharset t0 e | TUniquified t0 e _ => if e then 0 else S (rem t0)
   | TPrefetch t0 q e => if e then 0 else S (length q + rem t0)
   end.
 
@@ -128,7 +128,7 @@ Fixpoint height (t : tr) : nat :=
   | TUnique _ _ | TEcho _ _ | TFifo _ => 1
   | TUnion ts | TMerged ts _ _ =>
       S ((fix mx (l : list tr) : nat := match l with [] => 0 | x :: r => Nat.max (height x) (mx r) end) ts)
-  | TCache t0 _ | TDistinct t0 _ _ | TCharset t0 _ | TUniquified t0 _ | TPrefetch t0 _ _ => S (height t0)
+  | TCache t0 _ | TDistinct t0 _ _ | TCharset t0 _ | TUniquified t0 _ _ | TPrefetch t0 _ _ => S (height t0)
   end.
 
 (** Translation::Compare (translation.cc:12-23) and EchoTranslation::Compare
@@ -253,9 +253,11 @@ Section Loops.
         end
     end.
 
-  (** UniquifiedTranslation::Uniquify (uniquifier.cc:44-62); [e] is the
-      exhausted flag of the CacheTranslation base *)
-  Fixpoint uniquify (fuel : nat) (t : tr) (e : bool) (c : cache) : bool * tr * bool * cache :=
+  (** UniquifiedTranslation::Uniquify (uniquifier.cc); [e] is the exhausted
+      flag of the CacheTranslation base, [yl] the texts already yielded: a
+      duplicate of a yielded candidate that is not in the menu's cache (a later
+      filter holds it back) is dropped *)
+  Fixpoint uniquify (fuel : nat) (yl : list text) (t : tr) (e : bool) (c : cache) : bool * tr * bool * cache :=
     match fuel with
     | 0 => (false, t, true, c)
     | S f =>
@@ -264,11 +266,15 @@ Section Loops.
         | None => (true, t, false, c)            (* null Peek: no match is looked up when the cache is empty *)
         | Some p =>
             match find_text (c_text p) c with
-            | None => (true, t, false, c)
+            | None =>
+                if has_text yl (c_text p) then
+                  let '(_, t', c2) := nx t c in   (* CacheTranslation::Next *)
+                  uniquify f yl t' (exhausted t') c2
+                else (true, t, false, c)
             | Some k =>
                 let c1 := rewrite_at k p c in
                 let '(_, t', c2) := nx t c1 in    (* CacheTranslation::Next *)
-                uniquify f t' (exhausted t') c2
+                uniquify f yl t' (exhausted t') c2
             end
         end
     end.
@@ -341,11 +347,12 @@ Fixpoint next_d (d : nat) (t : tr) (c : cache) : bool * tr * cache :=
           if negb r then (false, TCharset t0' true, c') else
           let '(found, t1, c1) := locate (next_d d') (S (rem t0')) t0' c' in
           (found, TCharset t1 (negb found), c1)
-      | TUniquified t0 e =>
+      | TUniquified t0 e yl =>
           if e then (false, t, c) else
+          let yl' := match peek t0 with Some p => c_text p :: yl | None => yl end in
           let '(_, t0', c') := next_d d' t0 c in              (* CacheTranslation::Next *)
-          let '(r, t1, e1, c1) := uniquify (next_d d') (S (rem t0')) t0' (exhausted t0') c' in
-          (r, TUniquified t1 e1, c1)
+          let '(r, t1, e1, c1) := uniquify (next_d d') (S (rem t0')) yl' t0' (exhausted t0') c' in
+          (r, TUniquified t1 e1 yl', c1)
       end
   end.
 
@@ -368,7 +375,7 @@ Definition mk_single_char (d : nat) (t : tr) (c : cache) : tr * cache :=
 Definition mk_charset (d : nat) (t : tr) (c : cache) : tr * cache :=
   let '(found, t', c') := locate (next_d d) (S (rem t)) t c in (TCharset t' (negb found), c').
 Definition mk_uniquified (d : nat) (t : tr) (c : cache) : tr * cache :=
-  let '(_, t', e', c') := uniquify (next_d d) (S (rem t)) t (exhausted t) c in (TUniquified t' e', c').
+  let '(_, t', e', c') := uniquify (next_d d) (S (rem t)) [] t (exhausted t) c in (TUniquified t' e' [], c').
 
 (** MergedTranslation::operator+= *)
 Definition merged_add (m : tr) (t : tr) (c : cache) : tr :=
